@@ -493,6 +493,114 @@ def w_programs(job):
     return sh.result()
 
 
+# ---------------------------------------------------------------------------
+# stream 5 (thorough): coverage-guided atheris over token-built sources, semantic oracle inside the target
+
+TOKENS = ['\n', '\n    ', '\n        ', ' ', 'a', 'b', 'self', 'x', 'cls', 'f', 'A', 'os', 'path', '.', ',', '(', ')', '[', ']', '{', '}', ':', '=', ':=',
+          '+', '*', '**', '@', '->', ';', '\\\n', '1', "'s'", 'def ', 'class ', 'return ', 'yield ', 'lambda ', 'import ', 'from ', 'as ', 'if ',
+          'elif ', 'else', 'for ', 'in ', 'while ', 'try', 'except ', 'finally', 'with ', 'global ', 'nonlocal ', 'del ', 'pass', 'break', 'continue',
+          'raise ', 'async ', 'await ', 'not ', 'and ', 'or ', 'is ', 'None', 'locals', 'super', '__file__', 'cyc_a', 'fx_mod', '#c', '\t']
+
+
+def decode_fuzz(data):
+    """bytes -> (source, cursor). The last two bytes choose the cursor; every other byte picks a token."""
+    if len(data) < 3:
+        return None
+    body, cl, cc = data[:-2], data[-2], data[-1]
+    src = ''.join(TOKENS[b % len(TOKENS)] for b in body[:80])
+    lines = src.splitlines() or ['']
+    ln = cl % len(lines) + 1
+    col = cc % (len(lines[ln - 1]) + 1)
+    return src, (ln, col)
+
+
+def fuzz_one(data):
+    """-> (signature, detail) or None"""
+    dec = decode_fuzz(data)
+    if dec is None:
+        return None
+    src, pos = dec
+    project = suppview.project()
+    fn = suppview.filename_for(False)
+    prob, cls = check_lint(project, src, fn)
+    if prob and not classify_known(prob[0]):
+        return prob
+    for which in ('assist', 'location'):
+        prob, cls = check_cursor(project, which, src, pos, fn)
+        if prob and not classify_known(prob[0]):
+            return prob
+    return None
+
+
+ATHERIS_DRIVER = r'''
+import sys, os, logging
+sys.path.insert(0, %(deps)r); sys.path.insert(0, %(verif)r); sys.path.insert(0, %(repo)r)
+os.environ['VERIF_REPO'] = %(repo)r
+logging.disable(logging.CRITICAL)
+import atheris
+with atheris.instrument_imports(include=['supp']):
+    import supp.assistant, supp.linter, supp.nast, supp.scope, supp.name, supp.evaluator, supp.util, supp.project, supp.module
+from checks import c08
+def target(data):
+    bad = c08.fuzz_one(data)
+    if bad:
+        raise RuntimeError('C08VIOLATION ' + bad[0] + ' :: ' + bad[1][:200])
+atheris.Setup(sys.argv, target)
+atheris.Fuzz()
+'''
+
+
+def run_atheris(run, seconds):
+    import subprocess
+    import tempfile
+    import shutil
+    deps = os.path.join(core.VERIF, '.deps')
+    if not os.path.isdir(os.path.join(deps, 'atheris')):
+        subprocess.run([sys.executable, '-m', 'pip', 'install', '-q', '--no-index', '--find-links', '/opt/veriftools/wheels', '--target', deps, 'atheris'],
+                       stdout=subprocess.DEVNULL, stderr=subprocess.DEVNULL)
+    if not os.path.isdir(os.path.join(deps, 'atheris')):
+        run.notes.append('atheris unavailable: stream 5 skipped')
+        return
+    tmp = tempfile.mkdtemp(prefix='c08fuzz')
+    try:
+        drv = os.path.join(tmp, 'drv.py')
+        with open(drv, 'w') as f:
+            f.write(ATHERIS_DRIVER % {'deps': deps, 'verif': core.VERIF, 'repo': core.REPO})
+        procs = []
+        for i in range(12):
+            corpus_dir = os.path.join(tmp, 'corpus%d' % i)
+            os.makedirs(corpus_dir)
+            if i % 2:
+                for k, text in enumerate(CYCLIC_TEMPLATES[:12]):
+                    # seed inputs: closest token encoding is not needed, any bytes do; give the fuzzer varied lengths
+                    with open(os.path.join(corpus_dir, 'seed%d' % k), 'wb') as f:
+                        f.write(bytes((hash(ch) + k) % 256 for ch in text[:40]) + bytes([k, k * 3 % 256]))
+            procs.append(subprocess.Popen(
+                [sys.executable, drv, corpus_dir, '-max_total_time=%d' % seconds, '-seed=%d' % (core.derive_seed(run.seed, 'c08ath', i) % 2 ** 31 or 1),
+                 '-max_len=82', '-artifact_prefix=%s/crash%d-' % (tmp, i), '-print_final_stats=1', '-timeout=120'],
+                stdout=subprocess.PIPE, stderr=subprocess.STDOUT, cwd=tmp, env=dict(os.environ, PYTHONPATH=deps, PYTHONHASHSEED='0')))
+        execs = 0
+        for i, p in enumerate(procs):
+            out = p.communicate()[0].decode('utf-8', 'replace')
+            for line in out.splitlines():
+                if 'stat::number_of_executed_units' in line:
+                    execs += int(line.split()[-1])
+            for fn in os.listdir(tmp):
+                if fn.startswith('crash%d-' % i):
+                    data = open(os.path.join(tmp, fn), 'rb').read()
+                    bad = fuzz_one(data)
+                    if bad:
+                        src, pos = decode_fuzz(data)
+                        run.violations.append({'signature': bad[0], 'case': {'entry': bad[0].split(':')[0], 'src': src, 'pos': list(pos)},
+                                               'detail': 'atheris: ' + bad[1]})
+            if p.returncode not in (0,) and 'C08VIOLATION' not in out:
+                run.notes.append('atheris worker %d exit %s: %s' % (i, p.returncode, out[-200:]))
+        run.extra['atheris_executions'] = execs
+        run.evaluations += execs
+    finally:
+        shutil.rmtree(tmp, ignore_errors=True)
+
+
 KNOWN_SIGS = {}
 _listed = {e['id'] for e in core.load_known(PROPERTY) if e.get('status') == 'finding'}
 KNOWN_SIGS = {k: v for k, v in KNOWN_SIGS.items() if k in _listed}
@@ -513,6 +621,8 @@ def run(run):
     run.pmap(w_cyclic, [(i, core.derive_seed(run.seed, 'c08c', i), run.pick(40, 600)) for i in range(4)])
     run.pmap(w_programs, [(i, core.derive_seed(run.seed, 'c08p', i), run.pick(30, 600)) for i in range(12)])
     run.extra['timeouts_inconclusive'] = sum(v for k, v in run.counters.items() if k.endswith(':timeout'))
+    if not run.quick:
+        run_atheris(run, int(os.environ.get('VERIF_FUZZ_SECONDS', '300')))
 
 
 def replay(case):
